@@ -97,8 +97,20 @@ func verifC05(n Name) (base []byte, parts [][]byte, b2 []byte) {
 //@     (forall j int :: 0 <= j < c ==> line[j] < 128 && line[j] != ':' && !asciiSpace(line[j]) && !('A' <= line[j] && line[j] <= 'Z')) &&
 //@     'a' <= line[0] && line[0] <= 'z' && (c+1 == len(line) || blank(line[c+1]))
 
+// kvScan is the format's key rule at rune granularity: scanning runes from byte
+// i, the key ends at the first ':' that is not the first rune; the first rune
+// must be lower case and no rune may be white space or upper case.  It yields
+// the byte index of that ':' or -1.
+//@ rec func kvScan(line []byte, i int) int = i >= len(line) || i < 0 ? -1 :
+//@     (i == 0 && !unicode.IsLower(runeAt(line, i))) ? -1 :
+//@     (unicode.IsSpace(runeAt(line, i)) || unicode.IsUpper(runeAt(line, i))) ? -1 :
+//@     (i > 0 && runeAt(line, i) == ':') ? i :
+//@     (runeLen(line, i) >= 1 ? kvScan(line, i + runeLen(line, i)) : -1)
+
 //@ func parseKeyValueLine(line []byte) (key, val []byte, ok bool)
 //@   props C02 C01
+//@   ensures ok ==> kvScan(line, 0) == len(key)
+//@   ensures kvScan(line, 0) < 0 ==> !ok
 //@   ensures !ok ==> !(exists c int :: kvShape(line, c))
 //@   ensures ok ==> 0 < len(key) < len(line) && key === line[:len(key)] && line[len(key)] == ':'
 //@   ensures ok ==> forall j int :: 0 <= j < len(key) ==> line[j] != ':' && !asciiSpace(line[j]) && !('A' <= line[j] && line[j] <= 'Z')
@@ -108,11 +120,13 @@ func verifC05(n Name) (base []byte, parts [][]byte, b2 []byte) {
 //@   ensures ok && len(val) > 0 ==> !blank(val[0]) && off(val) > off(line)+len(key)+1
 //@   loop 1:
 //@     invariant 0 <= i <= len(line) && len(key) == 0 && len(val) == 0 && !ok
+//@     invariant kvScan(line, 0) == kvScan(line, i)
 //@     invariant forall j int :: 0 <= j < i ==> line[j] != ':' && !asciiSpace(line[j]) && !('A' <= line[j] && line[j] <= 'Z')
 //@     invariant i > 0 ==> line[0] >= 128 || ('a' <= line[0] && line[0] <= 'z')
 //@     decreases len(line) - i
 //@   loop 2:
 //@     invariant 0 < len(key) < len(line) && key === line[:len(key)] && line[len(key)] == ':'
+//@     invariant kvScan(line, 0) == len(key)
 //@     invariant sub(val, line) && end(val) == end(line) && off(val) >= off(line)+len(key)+1
 //@     invariant forall j int :: len(key)+1 <= j < off(val)-off(line) ==> blank(line[j])
 //@     invariant ok <==> off(val) > off(line)+len(key)+1
